@@ -1,5 +1,6 @@
 import RawPanelVerif.Base.Wire
 import RawPanelVerif.Model.Tile
+import RawPanelVerif.Model.TileObs
 import RawPanelVerif.Spec.TileSpec
 /-! Driver glue for `tile.*` records (C18). -/
 namespace RawPanelVerif.Driver.Tile
@@ -56,17 +57,56 @@ structure Parsed where
   border : Int
   inverted : Bool
   inp : TileIn
+  rgb : Bool := false
+
+/-! printing a text state in the harness's token format (`fontTok`, `stylingTok`, `scaleTok`, `colTok` of harness/tile.go) -/
+
+def b01 (b : Bool) : String := if b then "1" else "0"
+def fontTok : Option Font → String
+  | none => "~"
+  | some f => s!"{f.face}:{f.tw}:{f.th}"
+def stylingTok : Option Styling → String
+  | none => "~"
+  | some s => s!"{b01 s.fixedWidth}/{s.titlePad}/{s.extraSp}/{s.unfSize}/{fontTok s.textFont}/{fontTok s.titleFont}"
+def scaleTok : Option Scale → String
+  | none => "~"
+  | some s => s!"{s.stype},{s.rl},{s.rh},{s.ll},{s.lh}"
+def colTok : Option Col → String
+  | none => "~"
+  | some (.rgb r g b) => s!"r:{r}:{g}:{b}"
+  | some (.idx i) => s!"i:{i}"
+  | some .empty => "e"
+
+/-- the 15 text-state tokens `inverted;iv;iv2;fmt;si;mi;solid;pair;title;l1;l2;scale;styling;pix;bg` -/
+def stateTok (inp : TileIn) (inverted : Bool) : String :=
+  ";".intercalate [b01 inverted, toString inp.intVal, toString inp.intVal2, toString inp.fmt, toString inp.stateIcon,
+    toString inp.modIcon, b01 inp.solid, toString inp.pair, hexOfNats inp.title, hexOfNats inp.line1, hexOfNats inp.line2,
+    scaleTok inp.scale, stylingTok inp.styling, colTok inp.pix, colTok inp.bg]
 
 /-- args: w h shrink border inverted iv iv2 fmt si mi solid pair title line1 line2 scale styling pix bg -/
 def parseArgs (a : List String) : Option Parsed :=
   match a with
-  | [w, h, sh, bo, inv, iv, iv2, fmt, si, mi, solid, pair, title, l1, l2, sc, sty, pix, bg] => do
+  | w :: h :: sh :: bo :: inv :: iv :: iv2 :: fmt :: si :: mi :: solid :: pair :: title :: l1 :: l2 :: sc :: sty :: pix :: bg :: more => do
     let title ← unhex title; let l1 ← unhex l1; let l2 ← unhex l2
+    let rgb ← (match more with | [] => some false | [f] => parseBool f | [f, g] => (parseBool g).bind (fun _ => parseBool f) | _ => none)
     pure { w := ← w.toNat?, h := ← h.toNat?, shrink := ← parseInt sh, border := ← parseInt bo, inverted := ← parseBool inv,
            inp := { intVal := ← parseInt iv, intVal2 := ← parseInt iv2, fmt := ← parseInt fmt, stateIcon := ← parseInt si,
                     modIcon := ← parseInt mi, solid := ← parseBool solid, pair := ← parseInt pair,
                     title := title.toList.map (·.toNat), line1 := l1.toList.map (·.toNat), line2 := l2.toList.map (·.toNat),
-                    scale := ← parseScale sc, styling := ← parseStyling sty, pix := ← parseCol pix, bg := ← parseCol bg } }
+                    scale := ← parseScale sc, styling := ← parseStyling sty, pix := ← parseCol pix, bg := ← parseCol bg },
+           rgb := rgb }
+  | _ => none
+
+/-- the observed text state after the call (token `post` of the record output) -/
+def parsePost (s : String) : Option Spec.Tile.ArgA :=
+  match s.splitOn ";" with
+  | [inv, iv, iv2, fmt, si, mi, solid, pair, title, l1, l2, sc, sty, pix, bg] => do
+    let title ← unhex title; let l1 ← unhex l1; let l2 ← unhex l2
+    let inv ← parseBool inv
+    pure (obsArg { intVal := ← parseInt iv, intVal2 := ← parseInt iv2, fmt := ← parseInt fmt, stateIcon := ← parseInt si,
+                    modIcon := ← parseInt mi, solid := ← parseBool solid, pair := ← parseInt pair,
+                    title := title.toList.map (·.toNat), line1 := l1.toList.map (·.toNat), line2 := l2.toList.map (·.toNat),
+                    scale := ← parseScale sc, styling := ← parseStyling sty, pix := ← parseCol pix, bg := ← parseCol bg } inv)
   | _ => none
 
 def specCase (p : Parsed) : Spec.Tile.Case :=
@@ -86,15 +126,22 @@ def step (cmd : String) (args : List String) (impl : String) : String :=
       let A := renderTile p.inp p.inverted p.w p.h p.shrink p.border
       let Ai := renderTile p.inp (!p.inverted) p.w p.h p.shrink p.border
       let (pc, bc) := tileColours p.inp
-      let model := s!"{p.w} {p.h} {hexOfBytes (toU8 A)} {pc} {bc} {hexOfBytes (toU8 Ai)} 1"
+      let rgbM := if p.rgb then
+          (match tileRGB p.inp p.inverted p.w p.h p.shrink p.border with
+           | some r => hexOfBytes (r.toList.map (fun b => UInt8.ofNat b.toNat))
+           | none => "panic")
+        else "~"
+      let model := s!"{p.w} {p.h} {hexOfBytes (toU8 A)} {pc} {bc} {hexOfBytes (toU8 Ai)} 1 {stateTok (fillNil p.inp) p.inverted} {rgbM} {lineHeight (tileAcc p.inp p.w p.h p.shrink p.border).t}"
       let tag := s!"B:fmt{p.inp.fmt}"
       match impl.splitOn " " with
-      | [W, H, a, ipc, ibc, ai, det] =>
-        match parseInt W, parseInt H, unhex a, parseInt ipc, parseInt ibc, unhex ai, parseBool det with
-        | some W, some H, some a, some ipc, some ibc, some ai, some det =>
-          let hs := match Spec.Tile.checkBytes (specCase p) W H a ai ipc ibc det with | none => "H1" | some c => s!"H0:{c}"
+      | [W, H, a, ipc, ibc, ai, det, post, rgb, lh] =>
+        match parseInt W, parseInt H, unhex a, parseInt ipc, parseInt ibc, unhex ai, parseBool det, parsePost post,
+              (if rgb = "~" then some none else (unhex rgb).map some), parseInt lh with
+        | some W, some H, some a, some ipc, some ibc, some ai, some det, some post, some rgb, some lh =>
+          let hs := match Spec.Tile.checkBytes (specCase p) W H a ai ipc ibc det (obsArg p.inp p.inverted) post rgb lh with
+            | none => "H1" | some c => s!"H0:{c}"
           if impl = model then s!"EQ {hs} {tag}" else s!"NE {hs} {model} {tag}"
-        | _, _, _, _, _, _, _ => s!"NE H0:panic {model} {tag}"
+        | _, _, _, _, _, _, _, _, _, _ => s!"NE H0:panic {model} {tag}"
       | _ => s!"NE H0:panic {model} {tag}"
   | "tile.bar" =>
     -- args: v2 followed by the tile.render arguments (with intVal = v1)
